@@ -16,6 +16,7 @@ TECHNIQUE = 'CFG dominance of validation guards, polynomial normal forms of boun
 DECIDES += (' [ABSTRACT INTERPRETATION, exact] EL2: degree_elevation on symbolic control points is Eq. 5.36 exactly (degrees 1..4 x counts 1..3); degree_reduction applied to the exact elevation of a symbolic polygon returns that polygon (degrees 2..7); FD2: the binomial is not truncated from a float quotient (EQ536, END1 only corroborate).')
 DECIDES += (' EL2 also on polygons of rows of points and on inadmissible requests (count 0 / negative, non-Bezier polygon: rejected); DO2: operations.degree_operations on recorder curves gives every Bezier piece its helper result, the new degree and the knot vector a x (d+1), b x (d+1), also for elevation counts above degree + 1; DC9 on the deep copies it works on.')
 DECIDES += (' DO3: degree_operations with its pieces and its input as abstract curves whose real setters are interpreted: for one and two segments, elevation by 1..p+2 and reduction, no setter rejects an intermediate state (degree, then control points, then knots) and every object ends consistent.')
+DECIDES += (' SC2: set_ctrlpts and the ctrlpts / ctrlptsw setters store every coordinate as given, on objects built with precision=2; DC2 (shared with C07): the Bezier pieces degree_operations edits are never its input.')
 
 
 def site(fi, node=None):
